@@ -401,7 +401,8 @@ def run(ctx):
                     arg = ban.resolve_operand(s.rv.ops[0]) if s.rv.ops else ''
                     cons.setdefault(b.path, []).append((v, arg, s.line))
     def variants(path):
-        return sorted(v + ('(' + a.split('{')[0] + ')' if v == 'Timeout' else '') for v, a, _ in cons.get(path, []))
+        # (one entry per construction written in the source: jump threading may have cloned the block that holds it)
+        return sorted(v + ('(' + a.split('{')[0] + ')' if v == 'Timeout' else '') for v, a, _ in sorted(set(cons.get(path, []))))
     got_rec = variants(rec.path)
     ctx.ob('R04.5', 'recycler constructs no error except NoRuntimeSpecified', set(got_rec) <= {'NoRuntimeSpecified'}, ctx.where(rec),
            'constructs %s' % got_rec, construct='errors:recycler', sites=got_rec)
